@@ -112,7 +112,7 @@ def run(tier, seed):
                         ck.fail('a parser module was imported although plugins are disabled', rp, 'skip_plugins')
                     if allow and not attempted <= allowed:
                         ck.fail('a parser module other than the one named by creator/component was consulted', rp | {'unexpected': sorted(attempted - allowed)}, 'dispatch')
-                    compare(ck, p, data, real, model, spec, label='plugins', allow_plugins=allow)
+                    compare(ck, p, data, real, model, spec, label='plugins', allow_plugins=allow, env_kwargs=dict(allow=allow, ud=UD_FIX, src=SRC_FIX, callout=CO_FIX))
             finally:
                 env.uninstall()
         # ---- the shipped I/O-drawer plugin
